@@ -31,7 +31,7 @@ RULE = ("cases: (n, flag vector) pairs; executions: for each, the well-formed li
         "malformed-but-at-least-3-columns or well-formed with n>=1")
 ASSUMPTIONS = ["numeric tokens are drawn from a finite alphabet + seed-derived values; names have no spaces",
                "tokens such as '1.0' or '1_0' in a flag column are not generated (their status as integers is not specified)"]
-REQUIRED_CLASSES = ['name-with-braces', 'looked-at-between-parsing-and-formatting', 'eof', 'rejected-count', 'rejected-flag', 'ok', 'reinterpreted-as-other-n', 'n=0', 'n=12',
+REQUIRED_CLASSES = ['line-parsed-again-after-first-result-edited', 'name-with-braces', 'looked-at-between-parsing-and-formatting', 'eof', 'rejected-count', 'rejected-flag', 'ok', 'reinterpreted-as-other-n', 'n=0', 'n=12',
                     'roundtrip-ascii', 'roundtrip-pickle', 'roundtrip-dict', 'name-40', 'tabs', 'negative-and-placeholder', 'earlier-sources-rechecked', 'name-with-hash', 'edited-in-place-then-formatted-again']
 
 FLAGS = (0, 1, 2, 3, 4, 9)
@@ -176,6 +176,23 @@ def _roundtrips(rec, s, sub):
     rec.cls('roundtrip-ascii')
     if not ok:
         rec.violation('to_ascii|roundtrip', sub, {'formatted': line, 'source': [s.name, s.x, s.y, s.valid, s.flux, s.error]})
+    # the same line parsed a second time, after the first result has been edited in place by its owner: the second result shows the line
+    if s.n_wav:
+        try:
+            line = s.to_ascii()
+            t = Source.from_ascii(line)
+            t.flux *= 1e-3
+            t.error += 1.0
+            t.valid[0] = 0 if int(t.valid[0]) != 0 else 1
+            u_ = Source.from_ascii(line)
+            exp = parseref.parse(line)
+            ok = exp[0] == 'ok' and _cmp_ok(exp, u_) is None
+        except Exception as e:
+            ok = False
+        rec.ev()
+        rec.cls('line-parsed-again-after-first-result-edited')
+        if not ok:
+            rec.violation('from_ascii|second-parse-shows-edits-of-first', sub, {'line': line, 'problem': 'parsing the same line again after the first result was changed in place does not give the line\'s values'})
     # a value and a flag changed in place after the first formatting: the second formatting shows the source as it is now
     if s.n_wav:
         try:
